@@ -1,6 +1,6 @@
 #!/bin/bash
 # usage: confirm_seed.sh C01 A  -- confirms a sub-agent's seeded change in its scratch worktree and files it under /verif/seeded/
-ID=$1; V=$2; WT=/tmp/wt-$ID; S=$WT/_seeded/$V
+ID=$1; V=$2; NAME=${3:-$2}; WT=/tmp/wt-$ID; S=$WT/_seeded/$V
 cd $WT || exit 9
 git checkout -q -- job_shop_lib
 /venv/bin/python $S/demo.py >/dev/null 2>&1; D0=$?
@@ -10,13 +10,13 @@ T=$(/venv/bin/python -m pytest -q -p no:cacheprovider --timeout=900 2>&1 | tail 
 git checkout -q -- job_shop_lib
 echo "$ID-$V: demo(original)=$D0 demo(patched)=$D1 tests: $T"
 if [ $D0 -eq 0 ] && [ $D1 -ne 0 ] && echo "$T" | grep -q "190 passed"; then
-  mkdir -p /verif/seeded/$ID-$V; cp $S/patch.diff $S/demo.py /verif/seeded/$ID-$V/
+  mkdir -p /verif/seeded/$ID-$NAME; cp $S/patch.diff $S/demo.py /verif/seeded/$ID-$NAME/
   /venv/bin/python - <<PY
 import json
 m=json.load(open("$S/meta.json"))
 m["confirmed"]={"tests_with_patch":"$T".strip(),"demo_exit_original":$D0,"demo_exit_patched":$D1,
  "how":"scratch worktree of /repo at the pinned commit: git apply patch.diff; pytest (190 passed); demo.py non-zero; git checkout; demo.py zero"}
-json.dump(m,open("/verif/seeded/$ID-$V/meta.json","w"),indent=1)
+json.dump(m,open("/verif/seeded/$ID-$NAME/meta.json","w"),indent=1)
 PY
-  echo "  filed under /verif/seeded/$ID-$V"
+  echo "  filed under /verif/seeded/$ID-$NAME"
 else echo "  NOT CONFIRMED"; fi
